@@ -374,6 +374,12 @@ func genOp(r *rng, cur *jv, c genCfg) opSpec {
 	op.path = manglePtr(r, op.path)
 	if op.from != nil {
 		f := manglePtr(r, *op.from)
+		if r.chance(1, 25) && len(op.path) > 1 {
+			// two faults in one operation: a malformed destination AND a source that fails on
+			// its own (the error class must be that of the half the library evaluates first)
+			op.path = op.path[1:]
+			f = r.pick([]string{"", f + "/99", "/nope", f + "/01", "nope"})
+		}
 		op.from = &f
 	}
 	return op
